@@ -299,6 +299,13 @@ def pump_cases():
 
 
 # ---- enumerated parameter edges ---------------------------------------------------------------------
+BIG_TEMPLATES = [
+    b"x = chr(<N>)", b"ChrW(<N>)", b"chrb(000<N>)", b"FromBase64String('ZHVjaw==') -bxor <N>", b"-bxor <N> " + b",".join([b"65"] * 510), b"&#<N>;&#65;&#66;&#67;&#68;&#69;",
+    b"&#65;&#66;&#67;&#68;&#<N>;", b"http://example.com:<N>/x", b"http://<N>/x", b"http://1.2.3.<N>/x", b"1.2.3.<N>", b"\\\\1.2.3.4@<N>\\share\\x", b"http://0x<N>/",
+    b"&#x<N>;&#x41;&#x41;&#x41;&#x41;&#x41;", b"%u<N>", b"unescape('%<N>')", b"0x<N>," * 3, b"powershell -e <N>", b"ftp://user:pw@1.2.3.4:<N>/",
+]
+
+
 def edge_inputs():
     alnum = b"0123456789abcdefghijklmnopqrstuvwxyzABCDEFGHIJKLMNOPQRSTUVWXYZ"
     for n in range(0, 1000):
@@ -341,6 +348,10 @@ def edge_inputs():
     for k in range(495, 506):
         for hi in (255, 256, 999):
             yield b",".join([b"%d" % hi] * k) + b" -bxor 7"
+    # numeric parameters far outside any machine range (C int, 64 bit, Python's 4300-digit conversion limit)
+    for tmpl in BIG_TEMPLATES:
+        for big in S.BIGNUMS:
+            yield tmpl.replace(b"<N>", big)
     # wide-character runs chained through every NUL gap (odd gaps shift the alignment of what follows), 6-8 characters each
     runs = [bytes(x for c in w for x in (c, 0)) for w in (b"AAAAAA", b"BBBBBBB", b"cccccccc", b"d\xe9j\xe0 vu!")]
     for gaps in itertools.product(range(0, 8), repeat=2):
